@@ -162,6 +162,17 @@ func (check fieldConstraints) checkMember(v val.Value, t *meta.Type) error {
 			return err
 		}
 	}
+	if t.Format().Single() == val.FmtBinary && len(t.Length()) > 0 {
+		// RFC7950 Sec 9.8.1 - the length of a binary value is its number of octets
+		if octets, isBytes := v.Value().([]byte); isBytes {
+			n := val.Int32(len(octets))
+			for _, r := range t.Length() {
+				if err := r.CheckValue(n); err != nil {
+					return fmt.Errorf("binary length outside allowed ranges. %s", r)
+				}
+			}
+		}
+	}
 	return nil
 }
 
